@@ -70,33 +70,42 @@ def agrees (p : Point K) (c : CPoint K) : Prop :=
   (c.xy.isSome = true → p.xy.isSome = true) ∧ (c.z.isSome = true → p.z.isSome = true)
 
 
-/-- invariants of a cluster; `gons` = the unit of the output, `ps` = the active points (`s0` = sigma-apr: needed until
+/-- invariants of a cluster; `Rc` = the covariance elements the `<cov-mat>` text gives back exactly (they are printed by
+    `updated_xml_covmat` with its own format, not by `to_xmlstr`, which `R` is about); `gons` = the unit of the output, `ps` = the active points (`s0` = sigma-apr: needed until
     9f04c51, when a `<dh>` with a distance had to carry the implied standard deviation; kept in the signature) -/
-def Cluster.WF (C : Codec K) (R Rd : K → Prop) (gons : Bool) (s0 : K) (ps : List (Point K)) : Cluster K → Prop
+def Cluster.WFc (C : Codec K) (R Rc Rd : K → Prop) (gons : Bool) (s0 : K) (ps : List (Point K)) : Cluster K → Prop
   | .obs sp cov =>
     (∀ o ∈ sp.obs, o.WF C.toNumFmt ∧ o.RepU C R Rd gons ∧ (o.kind = .direction → o.from_ = sp.station)) ∧
     (∀ c, cov = some c → c.band ≠ 0 ∧
-      (covOut C gons (flagOf (sp.obs.map (fun o => o.kind.angular))) c).WF R sp.obs.length)
+      (covOut C gons (flagOf (sp.obs.map (fun o => o.kind.angular))) c).WF Rc sp.obs.length)
   | .hdiffs dhs cov =>
     (∀ h ∈ dhs, h.from_ ≠ "" ∧ h.to ≠ "" ∧ (C.pos h.dist = false → h.dist = C.zero) ∧
                 (R h.val ∧ (C.pos h.dist = true → R h.dist) ∧ R h.stdev)) ∧
-    (∀ c, cov = some c → c.band ≠ 0 ∧ c.WF R dhs.length)
+    (∀ c, cov = some c → c.band ≠ 0 ∧ c.WF Rc dhs.length)
   | .coords _ pts cov =>
-    (∀ c ∈ pts, c.WF R) ∧ cov.WF R (coordFlags pts).length ∧
+    (∀ c ∈ pts, c.WF R) ∧ cov.WF Rc (coordFlags pts).length ∧
     (∀ c ∈ pts, (∃ p ∈ ps, p.id = c.id) ∧ ∀ p ∈ ps, p.id = c.id → agrees p c)
-  | .vectors vecs cov => (∀ v ∈ vecs, v.WF C R) ∧ cov.WF R (vecFlags vecs).length
+  | .vectors vecs cov => (∀ v ∈ vecs, v.WF C R) ∧ cov.WF Rc (vecFlags vecs).length
 
+
+/-- the invariants with `Rc` = `Codec.CovRep` (`rd (fmtCov x) = some x`): the form the round-trip theorems assume -/
+abbrev Cluster.WF (C : Codec K) (R Rd : K → Prop) (gons : Bool) (s0 : K) (ps : List (Point K)) (c : Cluster K) : Prop :=
+  c.WFc C R C.CovRep Rd gons s0 ps
 
 /-- what GKFparser (+ the setters it calls) establishes, as far as export_xml can write it back:
     parameters within their guards, point ids non-empty and distinct, every cluster well-formed
     (`Cluster.WF`, in the unit of the output `n.par.gons`).  All components are bounded quantifications over the lists
     of the network and equalities (decided by the instances below). -/
-structure Net.WF (C : Codec K) (R Rd : K → Prop) (n : Net K) : Prop where
+structure Net.WFc (C : Codec K) (R Rc Rd : K → Prop) (n : Net K) : Prop where
   par : n.par.WF C R
   epoch : ∀ e, n.head.epoch = some e → R e
   ids : ∀ p ∈ n.points, p.id ≠ "" ∧ p.Rep R
   nodup : (n.points.map (·.id)).Nodup
-  clusters : ∀ c ∈ n.clusters, c.WF C R Rd n.par.gons n.par.sigmaApr (n.points.filter Point.active)
+  clusters : ∀ c ∈ n.clusters, c.WFc C R Rc Rd n.par.gons n.par.sigmaApr (n.points.filter Point.active)
+
+/-- `Net.WFc` with `Rc` = `Codec.CovRep`: the hypothesis of the round-trip theorems for an exact codec.  (For a printer
+    that rounds, `Rc x ↔ qc x = x`: `Net.WFc … (fun x => qc x = x) …` is the same condition, in arithmetic.) -/
+abbrev Net.WF (C : Codec K) (R Rd : K → Prop) (n : Net K) : Prop := n.WFc C R C.CovRep Rd
 
 /-- export_xml skips the points that are not active (`if (!point.active()) continue;`) -/
 def canon (n : Net K) : Net K := { n with points := n.points.filter Point.active }
@@ -155,14 +164,15 @@ instance [DecidableEq K] (p : Point K) (c : CPoint K) : Decidable (agrees p c) :
   unfold agrees
   infer_instance
 
-instance [DecidablePred R] [DecidablePred Rd] [DecidableEq K] (C : Codec K) (gons : Bool) (s0 : K) (ps : List (Point K))
-    (c : Cluster K) : Decidable (c.WF C R Rd gons s0 ps) := by
-  cases c <;> unfold Cluster.WF <;> infer_instance
+instance {Rc : K → Prop} [DecidablePred R] [DecidablePred Rc] [DecidablePred Rd] [DecidableEq K] (C : Codec K) (gons : Bool) (s0 : K)
+    (ps : List (Point K)) (c : Cluster K) : Decidable (c.WFc C R Rc Rd gons s0 ps) := by
+  cases c <;> unfold Cluster.WFc <;> infer_instance
 
-instance [DecidablePred R] [DecidablePred Rd] [DecidableEq K] (C : Codec K) (n : Net K) : Decidable (n.WF C R Rd) :=
+instance {Rc : K → Prop} [DecidablePred R] [DecidablePred Rc] [DecidablePred Rd] [DecidableEq K] (C : Codec K) (n : Net K) :
+    Decidable (n.WFc C R Rc Rd) :=
   decidable_of_iff
     (n.par.WF C R ∧ (∀ e, n.head.epoch = some e → R e) ∧ (∀ p ∈ n.points, p.id ≠ "" ∧ p.Rep R) ∧
-     (n.points.map (·.id)).Nodup ∧ ∀ c ∈ n.clusters, c.WF C R Rd n.par.gons n.par.sigmaApr (n.points.filter Point.active))
+     (n.points.map (·.id)).Nodup ∧ ∀ c ∈ n.clusters, c.WFc C R Rc Rd n.par.gons n.par.sigmaApr (n.points.filter Point.active))
     ⟨fun ⟨a, b, c, d, e⟩ => ⟨a, b, c, d, e⟩, fun ⟨a, b, c, d, e⟩ => ⟨a, b, c, d, e⟩⟩
 
 end decide
